@@ -93,6 +93,7 @@ func (t TermKind) String() string {
 type Event struct {
 	Name string
 	Args []Val
+	Ret  Val
 }
 
 // Fault is a violated implicit obligation (memory safety, allocator contract) found on a path.
